@@ -170,7 +170,7 @@ impl Property for C01 {
     const ID: &'static str = "C01";
 
     fn rule() -> String {
-        "proptest-generated insertion sequences (lengths around 0/1/255/256/4 KiB/65535/4 MiB, 0..8194 items, 4 entropies, hints, memory/file/file-range sources, duplicates) x compression x level x driver {bare creator, dedup adder, BasicCreator x 3 packagings}; oracle: harness-held model of inserted bytes vs. fresh reader, past-the-end addresses, check(), independent decoder. Non-trivial = >=2 clusters, or raw and compressed clusters together, or an empty content, or clusters of different offset widths, or a file-range source, or a 4095-blob cluster; distinct by (classes, compression, driver, multiset of lengths).".into()
+        "proptest-generated insertion sequences (lengths around 0/1/255/256/4 KiB/65535/4 MiB, 0..8194 items, 4 entropies, hints, memory/file/file-range sources, duplicates) x compression x level x driver {bare creator, dedup adder, BasicCreator x 3 packagings}; oracle: harness-held model of inserted bytes vs. fresh reader, past-the-end addresses, check(), independent decoder. Non-trivial = >=2 clusters, or raw and compressed clusters together, or an empty content, or clusters of different offset widths, or a file-range source, or a 4095-blob cluster; distinct by (classes, compression, driver, multiset of lengths). Sources include file ranges given without a size (to the end of the file) and file-backed contents placed where a cluster opens (around the 4095th content of a same-hint run).".into()
     }
 
     fn assumptions() -> Vec<String> {
